@@ -85,6 +85,8 @@ def main(argv=None) -> int:
                 rep = mod.run(ctx)
                 from . import specmut
                 specmut.run_for(ctx, rep, pid)   # vacuity guards: wrong variants of the specification must be rejected by TLC
+                from . import apalache
+                apalache.run_for(ctx, rep, pid)  # unbounded inductive invariants of the integer-only fragments
             except Exception as ex:
                 # a vacuity guard / binding self-test could not run.  If real violations were already found (e.g. no accepted
                 # trace is left to corrupt because the tree is broken) they are the verdict; otherwise it is a machinery failure.
